@@ -83,13 +83,33 @@ def build_chunk(case):
                     cls = case["pal"][int(rng.integers(len(case["pal"])))]
                     lo, hi = PAL_CLASSES[cls]
                     k = int(rng.integers(lo, hi + 1))
+                    near = False
                     if prev is not None and case["share"] and rng.random() < .4:
                         pal = prev
+                        if len(prev) > 2 and rng.random() < .5:
+                            # a table that differs from the previous one in a
+                            # single entry somewhere in the middle (same
+                            # length, same smallest and largest labels)
+                            srt = np.sort(prev)
+                            i = int(rng.integers(1, len(srt) - 1))
+                            lo_, hi_ = int(srt[i - 1]), int(srt[i + 1])
+                            cand = [v for v in range(lo_ + 1, min(hi_, lo_ + 9))
+                                    if v != int(srt[i])]
+                            if cand:
+                                srt = srt.copy()
+                                srt[i] = cand[0]
+                                pal = srt
+                                near = True
                     else:
                         pal = value_pool(rng, case["values"], dtype, k)
                     prev = pal
                     sub = out[c, z0:z0 + bz, y0:y0 + by, x0:x0 + bx]
-                    sub[...] = pal[rng.integers(len(pal), size=sub.shape)]
+                    if (near or case["share"]) and sub.size >= len(pal):
+                        # every label of the table really occurs in the block
+                        idx = np.arange(sub.size) % len(pal)
+                        sub[...] = pal[rng.permutation(idx)].reshape(sub.shape)
+                    else:
+                        sub[...] = pal[rng.integers(len(pal), size=sub.shape)]
     return out
 
 
